@@ -57,6 +57,7 @@ class PoolRun(object):
         th, qm = detsched.make_shims(S, H)
         self.tp = detsched.load_module_with_shims("jsonrpclib.threadpool", th, qm)
         H.srcfile = self.tp.__file__
+        detsched.trace_fields(S, self.tp.ThreadPool, detsched.POOL_COUNTERS, "_ThreadPool__lock")
         self.pool = self.tp.ThreadPool(mx, mn, queue_size=qcap, logname="P")
         self.sentinel = self.pool._done_event
         self.plock = getattr(self.pool, "_ThreadPool__lock", None)
@@ -128,7 +129,7 @@ class PoolRun(object):
     # ---- projection (after the change, baton still held)
     def snap(self):
         p = self.pool
-        g = lambda n, d=-1: getattr(p, "_ThreadPool__" + n, d)
+        g = lambda n, d=-1: p.__dict__.get("_traced__ThreadPool__" + n, d)       # (the traced slot: reading it is not a scheduling point)
         running = [i + 1 for i, s in enumerate(self.ts) if s == "running"]
         return {"stop": p._done_event.flag,
                 "q": [0 if it is self.sentinel else self.tid(it) for it in p._queue.queue],
@@ -367,6 +368,13 @@ PROGRAMS = [   # (client 1, client 2) - small programs around start / stop / res
     # mutually dependent work: tasks 1 and 2 gate-blocked, a third one queued, then one gate opens
     ([["start"], ["enq", 1], ["enq", 2], ["enq", 3], ["release", 1], ["joint"]], [], [1, 2]),
     ([["start"], ["enq", 1], ["enq", 2], ["enq", 3], ["release", 2], ["release", 1], ["joint"]], [], [1, 2]),
+    # a second client enqueues while the first one is inside start(): the counters must come out right whatever the
+    # interleaving; later the idle worker retires and one more task arrives
+    ([["start"], ["joint"], ["enq", 3], ["joint"]], [["enq", 1], ["enq", 2]], [1, 2, 3], ((3, 0), (2, 0), (3, 1))),
+    # a quick task ends while the next one is being submitted; then the idle worker retires and more work arrives
+    ([["start"], ["enq", 4], ["enq", 1], ["joint"], ["enq", 2], ["joint"]], [], [1, 2], ((2, 0), (3, 2), (2, 1), (3, 0))),
+    ([["start"], ["enq", 4], ["enq", 3], ["enq", 1], ["joint"], ["enq", 2], ["joint"]], [], [1, 2], ((2, 0), (3, 1))),
+    ([["enq", 1], ["start"], ["joint"], ["enq", 3], ["joint"]], [["enq", 2]], [1, 2, 3], ((3, 0), (2, 0))),
     # a task that ends while stop() is waiting for its worker (the gate is opened by the other client), then a restart
     ([["start"], ["enq", 1], ["stop"], ["start"], ["enq", 2], ["joint"]], [["release", 1]]),
     ([["start"], ["enq", 1], ["enq", 2], ["stop"], ["start"], ["enq", 3], ["stop"]], [["release", 1], ["release", 2]]),
@@ -394,6 +402,7 @@ def planned_trace(mx, mn, gated, progs, plan, policy, qcap=0):
     for c in range(1, nc + 1):
         S.spawn(client(c), "client%d" % c, 100 + c)
     cur, step, choices, end = None, 0, [], "quiescent"
+    idle_fired = 0            # idle time-outs of workers fired since a client last moved (time passes when nothing can run)
     while True:
         live = S.live()
         en = [t for t in live if S.is_enabled(t)]
@@ -411,18 +420,25 @@ def planned_trace(mx, mn, gated, progs, plan, policy, qcap=0):
         if t is None:
             if not en:
                 tmc = [x for x in tm if x.idx >= 100]        # a client's join(timeout) expires at quiescence
-                if tmc:
+                tmw = [x for x in tm if x.idx < 100]
+                if tmc and tmw and idle_fired < len(tmw):
+                    # a client sits in a timed wait while workers idle: the workers' idle time-outs expire first (once each)
+                    t, tmo = tmw[0], True
+                    idle_fired += 1
+                elif tmc:
                     t, tmo = tmc[0], True
                 else:
                     end = "quiescent"
                     break
             else:
                 t = cur if cur in en else sorted(en, key=lambda x: x.idx if policy == "low" else -x.idx)[0]
-        if not tmo and t.idx >= 100 and t.op[0] in ("is_set", "set", "clear", "qput", "acquire", "release", "qsize", "thread_start", "fetch", "return", "qempty", "unfinished_read", "qget_nowait", "thread_join"):
-            choices.append((step, t.idx, [x.idx for x in en if x is not t] + [-x.idx for x in tm if x.idx < 100]))
-        elif not tmo and t.idx < 100 and t.op[0] == "acquire":
+        if not tmo and t.idx >= 100:
+            idle_fired = 0
+        if not tmo and t.idx >= 100 and t.op[0] in ("is_set", "fld_read", "fld_write", "fld_write_locked", "set", "clear", "qput", "acquire", "release", "qsize", "thread_start", "fetch", "return", "qempty", "unfinished_read", "qget_nowait", "thread_join"):
+            choices.append((step, t.idx, [x.idx for x in en if x is not t] + [-x.idx for x in tm if x.idx < 100], t.op[0]))
+        elif not tmo and t.idx < 100 and t.op[0] in ("acquire", "fld_read", "fld_write"):
             # a worker about to enter a critical section (e.g. between its dequeue and counting itself active)
-            choices.append((step, t.idx, [x.idx for x in en if x is not t]))
+            choices.append((step, t.idx, [x.idx for x in en if x is not t], t.op[0]))
         if not tmo:
             cur = t
         S.step(t, tmo)
@@ -445,7 +461,7 @@ def explore(part, nparts, maxruns, rnd):
     out, seen = [], set()
     combos = []
     for pi, entry in enumerate(PROGRAMS):
-        for (mx, mn) in ((1, 0), (2, 0), (2, 1), (1, 1)):
+        for (mx, mn) in (entry[3] if len(entry) > 3 else ((1, 0), (2, 0), (2, 1), (1, 1))):
             for policy in ("low", "high"):
                 combos.append((entry, mx, mn, policy))
     for (entry, mx, mn, policy) in combos[part::nparts]:
@@ -455,24 +471,49 @@ def explore(part, nparts, maxruns, rnd):
         base, choices = planned_trace(mx, mn, gated, progs, {}, policy)
         out.append(base)
         plans_c, plans_w = [], []
-        for (st, curidx, others) in choices:
+        plans_f = []
+        for (st, curidx, others, opk) in choices:
             for o in others:
                 (plans_c if curidx >= 100 else plans_w).append({st: o})
+                if opk.startswith("fld_") and o > 0:
+                    plans_f.append({st: o})
         rnd.shuffle(plans_c)
         rnd.shuffle(plans_w)
-        for plan in plans_c[:maxruns] + plans_w[:maxruns]:
+        # (switches at UNPROTECTED counter accesses come first and are never sampled away: correct code has none
+        # outside start(), code that lost a lock has a few)
+        unprot = [pl for pl in plans_f if any(c[0] in pl and c[3] in ("fld_read", "fld_write") for c in choices)]
+        for plan in unprot + plans_c[:maxruns] + plans_w[:maxruns]:
             tr, _c = planned_trace(mx, mn, gated, progs, plan, policy)
             key = "|".join("%s:%s" % (e["thr"], e["k"]) for e in tr["ev"])
             if key not in seen:
                 seen.add(key)
                 out.append(tr)
+        # field races: a second preemption, again at an access to a counter (a read-modify-write that is not protected
+        # needs one switch away between its read and its write, and the other thread may have to be caught in the
+        # middle of its own update first) - explored exhaustively, it is a small set
+        for plan in plans_f:
+            tr, ch2 = planned_trace(mx, mn, gated, progs, plan, policy)
+            st1 = max(plan)
+            for (st2, cur2, oth2, opk2) in ch2:
+                if st2 <= st1 or not opk2.startswith("fld_"):
+                    continue
+                for o2 in oth2:
+                    if o2 <= 0:
+                        continue
+                    p2 = dict(plan)
+                    p2[st2] = o2
+                    tr2, _c = planned_trace(mx, mn, gated, progs, p2, policy)
+                    key = "|".join("%s:%s" % (e["thr"], e["k"]) for e in tr2["ev"])
+                    if key not in seen:
+                        seen.add(key)
+                        out.append(tr2)
     return out
 
 
 # --------------------------------------------------------------------------- replay mode
 # event kinds that end the spec step taken from a given pc (DESIGN 4.5); None = silent spec step
 CLIENT_ENDS = {
-    "fetch": {"call"}, "r1": {"release"}, "s1": {"is_set"}, "s2": {"ev_clear"}, "s3": {"qsize"}, "s4": None,
+    "fetch": {"call"}, "r1": {"release"}, "s1": {"is_set"}, "s2": {"ev_clear"}, "s3": {"qsize"}, "s4": None, "s4w": None,
     "s5": {"unlock", "is_set_cs"}, "s5a": {"unlock", "thread_start"}, "s5b": {"unlock"},
     "s6": {"unlock", "is_set_cs", "ret"}, "s6a": {"unlock", "thread_start"}, "s6b": {"unlock"},
     "e1": {"qput"}, "e1w": {"qput", "qput_full"}, "e1x": {"unlock"}, "e2": {"unlock", "is_set_cs"}, "e2a": {"unlock", "thread_start"}, "e3": {"unlock"},
@@ -513,6 +554,8 @@ def replay_behaviour(beh, limit=400):
         ends = (CLIENT_ENDS if who > 100 else WORKER_ENDS).get(pc, set())
         if pc == "e1" and st["st"]["cpc"][who - 101] == "e1w":
             ends = None                  # full bounded queue: the client acquires the lock and blocks in put()
+        if pc == "s4" and st["st"]["cpc"][who - 101] == "s5":
+            ends = {"unlock"}            # (repaired start(): the pending counter is incremented in a critical section of its own)
         if ends is None:
             continue                     # silent spec step: nothing to advance
         t = S.by_idx(who)
@@ -569,7 +612,7 @@ def replay_behaviour(beh, limit=400):
         if sorted(sp["alive"]) != im["alive"]:
             diffs.append(("alive", sp["alive"], im["alive"]))
         if e["k"] in ("unlock", "thread_start"):
-            in_start = any(pc_ in ("s3", "s4", "s5", "s5a", "s5b") for pc_ in sp["cpc"])   # unlocked nb_pending += 1 pending
+            in_start = any(pc_ in ("s3", "s4", "s4w", "s5", "s5a", "s5b") for pc_ in sp["cpc"])   # unlocked nb_pending += 1 pending
             for key in ("nbT", "nbA", "nbP"):
                 if key == "nbP" and in_start:
                     continue
